@@ -77,7 +77,6 @@ var repackSkip = map[string]bool{
 
 // repackExempt: single constructs of the pack scope that are not decided, one line of reason each.
 var repackExempt = map[string]string{
-	"EDNS0_REPORTING.pack:slice-high PackDomainName()#0+0 <= len(t0[:255])":                                                  "needs 'PackDomainName returns an offset within the buffer it was given', a postcondition of the name packer, which is not decided",
 	"EDNS0_SUBNET.pack:slice-high (((*e.f2+8)-1)/8)+0 <= len((net.IP).Mask())":                                               "needs len((net.IP).Mask(m)) == len(ip) for a mask of matching length and (prefix+7)/8 <= that length; net.IP.Mask is outside the module",
 	"EDNS0_SUBNET.pack:slice-high (((*e.f2+8)-1)/8)+0 <= len((net.IP).Mask())#2":                                             "needs len((net.IP).Mask(m)) == len(ip) for a mask of matching length and (prefix+7)/8 <= that length; net.IP.Mask is outside the module",
 	"Msg.packBufferWithCompressionMap:slice-high off+0 <= len(msg)":                                                          "msg[:off] after four loops of packRR calls: needs the packers' 'returned offset <= len(msg)' through the loops' phis",
